@@ -2,10 +2,10 @@
 
 Same construction as harness/translate_maps.py (whose module / statement machinery is reused by import), for the
 functions whose hand-written models carry the theorems of C17 (Twiss, emittance), C06 (moments), C10 (apertures,
-survival) and C20 (screen extent / bin edges, BPM reading).  The sources are read with `ast` (nothing of cheetah is
+survival) and C20 (only the BPM reading formula, i.e. ParticleBeam.mu_x / mu_y).  The sources are read with `ast` (nothing of cheetah is
 imported or executed), translated into Coq definitions over R (`Gen/StatsGen.v`), and `Gen/StatsGenEquiv.v` proves,
 definition by definition, `generated = hand-written model` (Beam/WStats.v, Beam/Twiss.v, Beam/TwCorr.v,
-Beam/WMoments.v at R, Beam/SI.v; Diag/Aperture.v and Diag/Screen.v through Q2R).  A semantic edit of a translated
+Beam/WMoments.v at R, Beam/SI.v; Diag/Aperture.v `mask` and Diag/Screen.v `centroid` through Q2R).  A semantic edit of a translated
 function changes the generated term and the lemma is false; an edit that leaves the fragment raises TranslateError
 (reason, file, line).  Nothing is skipped silently.
 
@@ -24,8 +24,6 @@ Translated functions (SPECS, in this order; later ones may use earlier ones):
                                     ParticleBeam / ParameterBeam derive from Beam only and do not redefine a Twiss getter)
   cheetah/particles/parameter_beam.py ParameterBeam.mu_x .. mu_p, sigma_x .. sigma_p, sigma_xpx, sigma_ypy
   cheetah/accelerator/aperture.py   Aperture.track  (the new survival probability of ONE particle, see below)
-  cheetah/accelerator/screen.py     Screen.effective_resolution, extent, pixel_bin_edges, pixel_bin_centers
-  cheetah/accelerator/bpm.py        BPM.track (the recorded reading)
 
 SAMPLE READING.  The particle axis (last axis of `particles[..., k]`, `particle_charges`, `survival_probabilities`,
 of the inputs of statistics.py) is a LIST `l : list S` of samples of an arbitrary type S; a tensor along that axis
@@ -40,7 +38,8 @@ is a function `S -> R` (kind "S"; `particles` is `S -> V7 R`, kind "S7", `partic
   sample (kind S) values.
   reductions       torch.sum(e, dim=D) / e.sum(dim=D), e of shape sample  =  gsum (fun i => e) l     [batch]
                    (gsum f l = fold_right (fun p acc => f p + acc) 0 l, Gen/StatsGenBase.v -- the `sumf` of Beam/WStats.v)
-                   D must be the function's own `dim` parameter, the literal -1, or absent; `keepdim=True` gives batch1
+                   D must be given and be the function's own `dim` parameter or the literal -1 (a sum without `dim`
+                   also reduces the batch axes: fails); `keepdim=True` gives batch1
   `dim`            parameter of kind dim (default None) may only be passed on as `dim=`; callers must pass -1 / their own dim
   statements       as in translate_maps (x = e -> let, docstrings, return, assert -> gen_<f>_pre, if/else on scalar tests);
                    a sample-shaped local `x = e` becomes  let x := (fun i => e) in ..
@@ -56,25 +55,23 @@ is a function `S -> R` (kind "S"; `particles` is `S -> V7 R`, kind "S7", `partic
   conditions       a == b, !=, <, <=, >, >= on reals (shape by the rule above),  c & d,  c | d,
                    torch.logical_and / logical_or,  torch.all / torch.any of a batch test = the test,
                    `A and B` of two such tests
-APERTURE READING (Aperture.track).  `incoming` is a ParticleBeam seen through its getters: incoming.x / incoming.y are
-  sample values (projections x, y : S -> R), incoming.survival_probabilities is a sample value.  The half sizes
-  self.x_max / self.y_max are EXTENDED reals (kind xR: `XFin r | XInf`, Gen/StatsGenBase.v) because the constructor
+APERTURE READING (Aperture.track).  `incoming` is a ParticleBeam seen through its buffers and getters: incoming.x / incoming.y
+  are the TRANSLATED getters ParticleBeam.x / .y applied to incoming.particles (so: columns 0 and 2),
+  incoming.survival_probabilities is a sample value.  The half sizes
+  self.x_max / self.y_max are EXTENDED reals (kind xR: `XFin r | XPInf | XNInf`, Gen/StatsGenBase.v) because the constructor
   default is +inf; on them only these operations are understood, with IEEE semantics for +-inf:
-      - m,  m ** n (n >= 1; even n for a negated operand),  m.unsqueeze(-1),  a / m  (a real; a / +-inf = 0),
+      - m,  m ** n (n >= 1 literal; (-inf)^n = +-inf by parity),  m.unsqueeze(-1),  a / m  (a real; a / +-inf = 0),
       a < m, a > m, a <= m, a >= m  (a real)            -- anything else fails.
-  self.shape is one of the two strings checked by the assert; the generated function takes `shape : ap_shape`
+  self.shape is one of the two strings checked by the assert; the generated function takes `shape : apshape`
   (`Rectangular | Elliptical`).  The translated result is the `survival_probabilities=` keyword of the returned
   ParticleBeam(..) as a function of ONE sample: incoming survival * mask, mask = if test then 1 else 0 (bool -> float);
   every other keyword must pass `incoming.<same attribute>` through.  The guard `if not (isinstance(incoming,
   ParticleBeam) and self.is_active): return incoming` is recognised literally and is NOT part of the value (dispatch).
-SCREEN READING.  resolution / pixel_size / misalignment are pairs (kind vec2); binning is an integer seen as a real
-  with `//` = floor division (Gen/StatsGenBase.v `fdiv`); torch.linspace(a, b, n + 1) has no closed scalar reading: the
-  translator emits the abstract `linspace a b (n + 1)` : nat -> R with  linspace a b (n+1) i = a + (b - a) * i / n
-  (the exact-arithmetic reading of Diag/Screen.v `edge`), and `(e[1:] + e[:-1]) / 2` = fun i => (e (i+1) + e i) / 2.
-
 NOT covered: float rounding; batching (beyond the shape tags); class machinery (constructors, buffers, inheritance is
 only checked to be `ParticleBeam(Beam)`, `ParameterBeam(Beam)`, `Beam(ABC, nn.Module)`, `Aperture(Element)` with the
-Twiss getters not overridden); dispatch in `track`; histogramdd; anything outside the listed functions.
+Twiss getters not overridden); dispatch in `track`; the elliptical aperture with a ZERO half size (IEEE inf/nan); the whole of
+screen.py (effective_resolution, extent, pixel_bin_edges, pixel_bin_centers, track, histogramdd, the ParameterBeam image) and
+BPM.track (which getters it stacks) -- NOT translated; anything outside the listed functions.
 """
 import ast
 import hashlib
@@ -83,7 +80,7 @@ import sys
 from pathlib import Path
 
 import translate_maps as tm
-from translate_maps import TranslateError, V, Tup, Meta, Opaque, Str, ifc, propc
+from translate_maps import TranslateError, V, Tup, Meta, Opaque, Str
 
 ST = "cheetah/utils/statistics.py"
 PBF = "cheetah/particles/particle_beam.py"
@@ -163,7 +160,8 @@ REEXPORTS = [
 ]
 
 EMITTED = tm.EMITTED | {"gsum", "Rmax", "Rabs", "Rmin", "V7", "list", "S", "l", "tiny", IVAR, "c0", "c1", "c2", "c3", "c4", "c5", "c6",
-                        "XFin", "XInf", "xR", "fdiv", "linspace", "INR", "ap_shape", "Rectangular", "Elliptical", "shape"}
+                        "XFin", "XPInf", "XNInf", "xR", "xopp", "xpow", "xdiv", "Rltx_dec", "Rgtx_dec", "Rlex_dec", "Rgex_dec", "Rltx", "Rgtx",
+                        "Rlex", "Rgex", "apshape", "Rectangular", "Elliptical", "shape"}
 
 
 # ---------------------------------------------------------------------------------------------- values
@@ -221,8 +219,84 @@ class Bv(V):            # test; c a condition tuple as in translate_maps; shape 
         self.c, self.shape = c, shape
 
 
+class Xv(V):            # extended real (half size of an aperture): Coq term of type xR
+    kind = "xR"
+
+    def __init__(self, t, shape="batch"):
+        self.t, self.shape = t, shape
+
+
+class ShapeV(V):        # Aperture.shape
+    kind = "shape"
+
+
+class ShTest(V):        # self.shape == "name" / != "name"
+    kind = "shape-test"
+
+    def __init__(self, name, neg):
+        self.name, self.neg = name, neg
+
+
+class ShIn(V):          # self.shape in [names]
+    kind = "shape-membership"
+
+    def __init__(self, names):
+        self.names = names
+
+
+class BeamObj(V):       # `incoming`: a ParticleBeam seen through its attributes / translated getters
+    kind = "beam"
+
+    def __init__(self, attrs):
+        self.attrs = attrs
+
+
+class Pass(V):          # incoming.<attr> that may only be passed through to the outgoing beam
+    kind = "pass-through"
+
+    def __init__(self, attr):
+        self.attr = attr
+
+
+class NewBeam(V):       # ParticleBeam(.., survival_probabilities=e, ..) with everything else passed through
+    kind = "new-beam"
+
+    def __init__(self, surv):
+        self.surv = surv
+
+
 class Gather(V):        # g[c] inside the right-hand side of a masked write
     kind = "gather"
+
+
+XOPS = {"xlt": ("Rltx", "<"), "xgt": ("Rgtx", ">"), "xle": ("Rlex", "<="), "xge": ("Rgex", ">=")}
+
+
+def ifc(c, a, b):
+    """translate_maps.ifc plus the comparisons real-vs-extended-real (xlt a m: a < m, ...)."""
+    op = c[0]
+    if op in XOPS:
+        return f"(if {XOPS[op][0]}_dec {c[1]} {c[2]} then {a} else {b})"
+    if op == "and":
+        return ifc(c[1], ifc(c[2], a, b), b)
+    if op == "or":
+        return ifc(c[1], a, ifc(c[2], a, b))
+    if op == "not":
+        return ifc(c[1], b, a)
+    return tm.ifc(c, a, b)
+
+
+def propc(c):
+    op = c[0]
+    if op in XOPS:
+        return f"({XOPS[op][0]} {c[1]} {c[2]})"
+    if op == "and":
+        return f"({propc(c[1])} /\\ {propc(c[2])})"
+    if op == "or":
+        return f"({propc(c[1])} \\/ {propc(c[2])})"
+    if op == "not":
+        return f"(~ {propc(c[1])})"
+    return tm.propc(c)
 
 
 def join_shape(a, b):
@@ -241,7 +315,7 @@ def join_shape(a, b):
 def shape_of(v):
     if isinstance(v, PS):
         return "sample"
-    if isinstance(v, (Rv, Bv)):
+    if isinstance(v, (Rv, Bv, Xv)):
         return v.shape
     return None
 
@@ -533,6 +607,8 @@ class SFn(tm.FnTr):
 
     def reduce_sum(self, v, n, kws, env):
         keep = False
+        if not any(kw.arg == "dim" for kw in kws):
+            self.fail(n, "sum without `dim` reduces over ALL axes (the batch axes of a vectorised beam included), not over the particle axis")
         for kw in kws:
             if kw.arg == "dim":
                 if not self.is_dim(kw.value, env):
@@ -657,6 +733,27 @@ class SFn(tm.FnTr):
         self.fail(n, f"torch.{name} is outside the translated fragment")
 
     # -- statements
+    def block(self, stmts, env, cont):
+        if stmts:
+            s, rest = stmts[0], stmts[1:]
+            if isinstance(s, ast.Assert):
+                self.asserts += 1
+                c = self.cond(self.ev(s.test, env), s.test)
+                if s.msg is not None and not (isinstance(s.msg, ast.Constant) and isinstance(s.msg.value, str)):
+                    self.fail(s, "assert message must be a string literal")
+                r = self.block(rest, env, cont)
+                return f"({propc(c)} /\\ {r})" if self.mode == "pre" else r
+            if isinstance(s, ast.If):
+                c = self.cond(self.ev(s.test, env), s.test)
+                k = (lambda e: self.block(rest, e, cont))
+                if not rest and cont is None:
+                    k = None
+                return ifc(c, self.block(s.body, env, k), self.block(s.orelse, env, k))
+        return super().block(stmts, env, cont)
+
+    def beam_param(self, nm, coq_params):
+        self.mod.fail(self.fnode, "beam-valued parameter outside the aperture / BPM reading")
+
     def bind(self, target, v, env, node):
         env = dict(env)
         if isinstance(target, ast.Name):
@@ -786,6 +883,9 @@ class SFn(tm.FnTr):
                 continue
             if d is not None:
                 mod.fail(f, f"signature changed: default of parameter {nm!r}")
+            if kind == "beam":
+                env[nm] = self.beam_param(nm, coq_params)
+                continue
             c = self.fresh(nm)
             env[nm], ty = self.attr_value(c, kind)
             coq_params.append((c, ty))
@@ -830,6 +930,181 @@ class SFn(tm.FnTr):
         if kind == "M7":
             return M7v(c), "M7 R"
         raise AssertionError(kind)
+
+
+# ---------------------------------------------------------------------------------------------- Aperture.track
+AP_GUARD = ast.dump(ast.parse("if not (isinstance(incoming, ParticleBeam) and self.is_active):\n    return incoming").body[0])
+AP_SHAPES = {"rectangular": "Rectangular", "elliptical": "Elliptical"}
+FLIP = {"lt": "gt", "gt": "lt", "le": "ge", "ge": "le"}
+BEAM_PASS = ("particles", "energy", "particle_charges")
+
+
+class ApFn(SFn):
+    def __init__(self, tr, spec, mod):
+        super().__init__(tr, spec, mod)
+        self.guard_seen = False
+        self.shape_asserted = False
+
+    def attr_value(self, c, kind):
+        if kind == "xR":
+            return Xv(c, "batch"), "xR"
+        if kind == "shape":
+            return ShapeV(), "apshape"
+        return super().attr_value(c, kind)
+
+    def beam_param(self, nm, coq_params):
+        attrs = {}
+        for a, kind in (PART, SURV):
+            c = self.fresh(a)
+            self.attr_coq[a], self.attr_kind[a] = c, kind
+            attrs[a], ty = SFn.attr_value(self, c, kind)
+            coq_params.append((c, ty))
+        return BeamObj(attrs)
+
+    def obj_attr(self, v, n, env):
+        if isinstance(v, BeamObj):
+            if n.attr in v.attrs:
+                return v.attrs[n.attr]
+            if n.attr in BEAM_PASS:
+                return Pass(n.attr)
+            callee = self.tr.lookup("ParticleBeam", n.attr)
+            if callee is not None and callee["spec"].get("prop"):
+                return self.call_fn(callee, [], {}, n, {"self": v.attrs})
+            self.fail(n, f"incoming.{n.attr} is neither a buffer nor a translated getter of ParticleBeam")
+        return super().obj_attr(v, n, env)
+
+    def e_Attribute(self, n, env):
+        if isinstance(n.value, ast.Name) and n.value.id == "self" and n.attr == "shape" and "shape" in env.get("self", {}):
+            known = env.get("__shape__")
+            return Str(known) if known else ShapeV()
+        return super().e_Attribute(n, env)
+
+    def neg_other(self, v, n):
+        if isinstance(v, Xv):
+            return Xv(f"(xopp {v.t})", v.shape)
+        return super().neg_other(v, n)
+
+    def pow_other(self, b, k, n):
+        if isinstance(b, Xv) and k >= 1:
+            return Xv(f"(xpow {b.t} {k})", b.shape)
+        return super().pow_other(b, k, n)
+
+    def unsqueeze_other(self, v, n):
+        if isinstance(v, Xv) and v.shape == "batch":
+            return Xv(v.t, "batch1")
+        return super().unsqueeze_other(v, n)
+
+    def binop_other(self, op, a, b, n):
+        if isinstance(op, ast.Div) and isinstance(a, (Rv, PS)) and isinstance(b, Xv):
+            return mk_real(f"(xdiv {a.t} {b.t})", self.join(a, b, n))
+        return super().binop_other(op, a, b, n)
+
+    def compare_mixed(self, op, a, b, n):
+        if op in FLIP:
+            if isinstance(a, (Rv, PS)) and isinstance(b, Xv):
+                return Bv(("x" + op, a.t, b.t), self.join(a, b, n))
+            if isinstance(a, Xv) and isinstance(b, (Rv, PS)):
+                return Bv(("x" + FLIP[op], b.t, a.t), self.join(a, b, n))
+        if op in ("eq", "ne"):
+            for x, y in ((a, b), (b, a)):
+                if isinstance(x, ShapeV) and isinstance(y, Str):
+                    if y.s not in AP_SHAPES:
+                        self.fail(n, f"unknown aperture shape {y.s!r}")
+                    return ShTest(y.s, op == "ne")
+            if isinstance(a, Str) and isinstance(b, Str):          # self.shape under a branch where it is known
+                return ShTest(None, (a.s == b.s) == (op == "ne"))
+        return super().compare_mixed(op, a, b, n)
+
+    def compare_other(self, n, env):
+        if isinstance(n.ops[0], ast.In) and isinstance(self.ev(n.left, env), ShapeV) and isinstance(n.comparators[0], ast.List):
+            names = []
+            for e in n.comparators[0].elts:
+                if not (isinstance(e, ast.Constant) and isinstance(e.value, str)):
+                    self.fail(n, "shape membership: literal strings expected")
+                names.append(e.value)
+            return ShIn(names)
+        return super().compare_other(n, env)
+
+    def call_other(self, n, env):
+        if n.func.id != "ParticleBeam":
+            return super().call_other(n, env)
+        self.mod.global_origin("ParticleBeam", n)
+        if n.args or any(k.arg is None for k in n.keywords):
+            self.fail(n, "ParticleBeam(..) must be called with keywords only")
+        seen, surv = set(), None
+        for kw in n.keywords:
+            if kw.arg in seen:
+                self.fail(n, f"duplicate keyword {kw.arg!r}")
+            seen.add(kw.arg)
+            if kw.arg in BEAM_PASS:
+                v = self.ev(kw.value, env)
+                ok = (isinstance(v, Pass) and v.attr == kw.arg) or (kw.arg == "particles" and isinstance(v, P7) and isinstance(kw.value, ast.Attribute)
+                                                                    and isinstance(self.ev(kw.value.value, env), BeamObj) and kw.value.attr == "particles")
+                if not ok:
+                    self.fail(kw.value, f"keyword {kw.arg!r} of the outgoing ParticleBeam is not incoming.{kw.arg} passed through unchanged")
+            elif kw.arg == "survival_probabilities":
+                surv = self.ev(kw.value, env)
+                if not isinstance(surv, PS):
+                    self.fail(kw.value, f"new survival probabilities do not extend along the particle axis (they are {surv.kind})")
+            elif kw.arg in ("device", "dtype"):
+                if not isinstance(self.ev(kw.value, env), (Meta, DType)):
+                    self.fail(kw.value, f"keyword {kw.arg} is not a device/dtype bookkeeping value")
+            else:
+                self.fail(n, f"unexpected keyword {kw.arg!r} of ParticleBeam(..)")
+        if surv is None or not set(BEAM_PASS) <= seen:
+            self.fail(n, "ParticleBeam(..): particles / energy / particle_charges / survival_probabilities must all be given")
+        return NewBeam(surv)
+
+    def ret_other(self, v, node):
+        if isinstance(v, NewBeam):
+            if not self.guard_seen:
+                self.fail(node, "the guard `if not (isinstance(incoming, ParticleBeam) and self.is_active): return incoming` is missing")
+            if self.ret_kind not in (None, "S"):
+                self.fail(node, "return statements of different kinds")
+            self.ret_kind = "S"
+            return f"(fun {IVAR} => {v.surv.t})"
+        return super().ret_other(v, node)
+
+    def block(self, stmts, env, cont):
+        if stmts:
+            s, rest = stmts[0], stmts[1:]
+            if isinstance(s, ast.If) and ast.dump(s) == AP_GUARD:
+                body = [x for x in self.fnode.body if not (isinstance(x, ast.Expr) and isinstance(x.value, ast.Constant))]
+                if not body or body[0] is not s:
+                    self.fail(s, "the dispatch guard must be the first statement")
+                self.guard_seen = True
+                return self.block(rest, env, cont)
+            if isinstance(s, ast.Assert):
+                t = self.ev(s.test, env)
+                if isinstance(t, ShIn):
+                    if sorted(t.names) != sorted(AP_SHAPES):
+                        self.fail(s, f"the shape assertion admits {t.names}, expected exactly {sorted(AP_SHAPES)}")
+                    env = dict(env)
+                    env["__shapes_ok__"] = Meta()
+                    return self.block(rest, env, cont)
+            if isinstance(s, ast.If):
+                t = self.ev(s.test, env)
+                if isinstance(t, ShTest):
+                    k = (lambda e: self.block(rest, e, cont))
+                    if not rest and cont is None:
+                        k = None
+                    if t.name is None:                   # shape known on this path: the test is decided
+                        return self.block(s.orelse if t.neg else s.body, env, k)
+                    if "__shapes_ok__" not in env:
+                        self.fail(s, "branch on self.shape before the assertion that it is 'rectangular' or 'elliptical'")
+                    arms = []
+                    for name, ctor in AP_SHAPES.items():
+                        e2 = dict(env)
+                        e2["__shape__"] = name
+                        taken = (name == t.name) != t.neg
+                        arms.append(f"| {ctor} => {self.block(s.body if taken else s.orelse, e2, k)}")
+                    return f"(match {self.attr_coq['shape']} with {' '.join(arms)} end)"
+        return super().block(stmts, env, cont)
+
+
+SPECS.append(dict(file=APF, cls="Aperture", fn="track", prop=False, attrs=[("x_max", "xR"), ("y_max", "xR"), ("shape", "shape")], params=["beam"],
+                  bases=["Name(id='Element', ctx=Load())"], translator=ApFn))
+REEXPORTS.append(("cheetah/particles/__init__.py", "ParticleBeam", ".particle_beam"))
 
 
 # ---------------------------------------------------------------------------------------------- driver
